@@ -1210,4 +1210,45 @@ namespace vh
     printDense(o, state.rate_constants_);
     return o.os.str();
   }
+
+  // ---------------------------------------------------------------- error norm / BE convergence test (C07)
+  template<std::size_t L>
+  std::string DenseCfg<L>::norm(Tok& t, std::size_t ncell, std::size_t ns)
+  {
+    using DM = typename DenseOf<L>::type;
+    using SM = SparseOf<L, false>;
+    auto atol = t.flts(ns);
+    double rtol = t.flt();
+    auto y = t.flts(ncell * ns);
+    auto yn = t.flts(ncell * ns);
+    auto er = t.flts(ncell * ns);
+    double small = t.flt();
+    std::vector<micm::Species> sp;
+    std::vector<micm::Process> procs;
+    for (std::size_t i = 0; i < ns; ++i)
+    {
+      sp.push_back(micm::Species("s" + std::to_string(i)));
+      procs.push_back(micm::Process::Create()
+                          .SetReactants({ sp.back() })
+                          .SetProducts({})
+                          .SetRateConstant(micm::UserDefinedRateConstant({ .label_ = "r" + std::to_string(i) })));
+    }
+    auto solver = micm::CpuSolverBuilder<micm::RosenbrockSolverParameters, DM, SM>(
+                      micm::RosenbrockSolverParameters::ThreeStageRosenbrockParameters())
+                      .SetSystem(micm::System(micm::SystemParameters{ .gas_phase_ = micm::Phase{ sp } }))
+                      .SetReactions(procs)
+                      .SetNumberOfGridCells(ncell)
+                      .SetReorderState(false)
+                      .Build();
+    auto state = solver.GetState();
+    state.SetAbsoluteTolerances(atol);
+    state.SetRelativeTolerance(rtol);
+    DM Y = denseFrom<DM>(ncell, ns, y), Yn = denseFrom<DM>(ncell, ns, yn), E = denseFrom<DM>(ncell, ns, er);
+    double e = solver.solver_.NormalizedError(Y, Yn, E, state);
+    micm::BackwardEulerSolverParameters bp;
+    bp.small_ = small;
+    using BE = micm::BackwardEuler<micm::ProcessSet, micm::LinearSolver<SM>>;
+    bool conv = BE::IsConverged(bp, E, Yn, atol, rtol);
+    return "norm e=" + hexd(e) + " conv=" + (conv ? "1" : "0");
+  }
 }  // namespace vh
